@@ -27,8 +27,10 @@ func init() { checks["C15"] = checkC15 }
 
 // envRow is one row of the table printed by specs/Envelope.tla.
 type envRow struct {
-	Kind   string `json:"kind"` // "row" | "arb"
-	PC     string `json:"pc,omitempty"`
+	Kind   string   `json:"kind"`            // "row" | "arb"
+	Api    string   `json:"api,omitempty"`   // "data": SerializeData / DeserializeData, "obj": Serialize / Deserialize
+	Users  []string `json:"users,omitempty"` // users of the envelope whose stored values this row is the oracle for
+	PC     string   `json:"pc,omitempty"`
 	Comp   string `json:"comp,omitempty"`
 	Lvl    int    `json:"lvl,omitempty"`
 	Cks    string `json:"cks,omitempty"`
@@ -49,7 +51,7 @@ type envRow struct {
 }
 
 // names of the specification -> constants of the dvid API
-var c15Comp = map[string]uint8{"none": uint8(dvid.Uncompressed), "snappy": uint8(dvid.Snappy), "lz4": uint8(dvid.LZ4), "gzip": uint8(dvid.Gzip)}
+var c15Comp = map[string]uint8{"none": uint8(dvid.Uncompressed), "snappy": uint8(dvid.Snappy), "lz4": uint8(dvid.LZ4), "gzip": uint8(dvid.Gzip), "jpeg": uint8(dvid.JPEG)}
 var c15Cks = map[string]uint8{"none": uint8(dvid.NoChecksum), "crc32": uint8(dvid.CRC32)}
 
 type c15Payload struct {
@@ -74,6 +76,8 @@ type c15Obs struct {
 	Fmt       uint8  `json:"fmt"`
 	IsPayload bool   `json:"is_payload"`
 	IsBody    bool   `json:"is_body"`
+	// (object rows) the envelope handed on altered bytes without an error; they were not offered to encoding/gob
+	GobSkipped bool `json:"gob_skipped,omitempty"`
 }
 
 type c15Divergence struct {
@@ -88,7 +92,7 @@ type c15Divergence struct {
 	Note     string      `json:"note,omitempty"`
 }
 
-func c15Conforms(expect string, o c15Obs, compCode uint8) bool {
+func c15Conforms(expect string, o c15Obs, compCode uint8, plLen int) bool {
 	if o.Panic != "" {
 		return false
 	}
@@ -105,6 +109,8 @@ func c15Conforms(expect string, o c15Obs, compCode uint8) bool {
 		return o.Err != "" || o.IsPayload
 	case "nocrash":
 		return true
+	case "samesize":
+		return o.Err == "" && o.Len == plLen
 	}
 	return false
 }
@@ -149,6 +155,10 @@ func c15Payloads(c *Ctx, rng *rand.Rand, class string) []c15Payload {
 			out = append(out, c15Lit("zeros:2", make([]byte, 2)), c15Lit("pattern:300", pat(300)),
 				c15Payload{Name: "zeros:70000", Gen: "zeros", Len: 70000},
 				c15Payload{Name: "pattern:300000", Gen: "pattern", Seed: rng.Int63(), Len: 300000})
+		}
+	case "flat", "nested", "bytes": // object classes: the node builds the object from the seed
+		for i := 0; i < c.pick(2, 6); i++ {
+			out = append(out, c15Payload{Name: fmt.Sprintf("%s:%d", class, i), Gen: "obj", Seed: rng.Int63()})
 		}
 	case "large":
 		out = append(out, c15Payload{Name: "mixed:1.5MB", Gen: "mixed", Seed: rng.Int63(), Len: 1500000 + rng.Intn(1000)})
@@ -198,6 +208,7 @@ func posClass(p, lo, hi int) string {
 }
 
 type c15Group struct {
+	api           string
 	pc, comp, cks string
 	lvl           int
 	rows          []*envRow
@@ -215,9 +226,38 @@ func c15RunTask(c *Ctx, run *ev.Run, n *node.Node, rng *rand.Rand, g *c15Group, 
 		Rewrapped bool     `json:"rewrapped"`
 		Obs       []c15Obs `json:"obs"`
 	}
+	level := g.lvl
+	if g.comp == "jpeg" && g.pc != "empty" {
+		// the level of the JPEG format is the row width of the gray image: the largest divisor of the
+		// payload length that fits the int8 level; payloads from generators are trimmed to a multiple of 100
+		if pl.Gen != "" {
+			pl.Len -= pl.Len % 100
+			pl.Name += "/trimmed"
+		}
+		level = 0
+		for w := 127; w >= 1; w-- {
+			if pl.Len%w == 0 {
+				level = w
+				break
+			}
+		}
+		if (level == 1 && pl.Len > 1) || pl.Len/level > 65000 || pl.Len > 2<<20 {
+			return // no admissible image shape for this length (and multi-MB images cost seconds per decode)
+		}
+		if sampled > 60 {
+			sampled = 60
+		}
+	}
 	call := func(dm []c15Damage, wantEnv bool) serRes {
 		var res serRes
-		err := n.Call("ser.damage", map[string]interface{}{"payload": pl, "comp": compCode, "level": g.lvl,
+		if g.api == "obj" {
+			if err := n.Call("ser.obj", map[string]interface{}{"class": g.pc, "seed": pl.Seed, "comp": compCode, "level": level,
+				"checksum": cksCode, "damages": dm, "want_env": wantEnv}, &res); err != nil {
+				infra("ser.obj (%s %s %s/%s seed %d, %d damages): %v; stderr tail: %s", g.pc, pl.Name, g.comp, g.cks, pl.Seed, len(dm), err, n.StderrTail(2500))
+			}
+			return res
+		}
+		err := n.Call("ser.damage", map[string]interface{}{"payload": pl, "comp": compCode, "level": level,
 			"checksum": cksCode, "damages": dm, "want_env": wantEnv}, &res)
 		must(err, "ser.damage")
 		return res
@@ -229,7 +269,7 @@ func c15RunTask(c *Ctx, run *ev.Run, n *node.Node, rng *rand.Rand, g *c15Group, 
 			Observed: probe.SerPanic + probe.SerErr})
 		return
 	}
-	if g.pc != "empty" && !probe.Rewrapped {
+	if g.pc != "empty" && g.comp != "jpeg" && !probe.Rewrapped {
 		c15Report(run, c15Divergence{Kind: "precompressed-roundtrip", Row: g.rows[0], Payload: &pl, Envelope: probe.Env,
 			Expected: "payload", Observed: "DeserializeData(SerializePrecompressedData(stored body)) is not the payload"})
 	}
@@ -267,7 +307,7 @@ func c15RunTask(c *Ctx, run *ev.Run, n *node.Node, rng *rand.Rand, g *c15Group, 
 	}
 	small := L <= allLimit
 	for _, r := range g.rows {
-		base := fmt.Sprintf("%s|%s|%d|%s|%s|%s|%v|%s", r.PC, r.Comp, r.Lvl, r.Cks, r.Dmg.Kind, r.Dmg.Region, r.Unc, pl.Name)
+		base := fmt.Sprintf("%s|%s|%s|%d|%s|%s|%s|%v|%s", r.Api, r.PC, r.Comp, r.Lvl, r.Cks, r.Dmg.Kind, r.Dmg.Region, r.Unc, pl.Name)
 		switch r.Dmg.Kind {
 		case "none":
 			add(r, c15Damage{Kind: "none"}, base)
@@ -301,6 +341,11 @@ func c15RunTask(c *Ctx, run *ev.Run, n *node.Node, rng *rand.Rand, g *c15Group, 
 			}
 		case "cutbefore":
 			add(r, c15Damage{Kind: "cut", Pos: ranges[r.Dmg.Index-1].lo}, base)
+		case "trailing": // extra bytes behind the value: one, a few, many; zeros and seeded bytes
+			for _, k := range []int{1, 2 + rng.Intn(8), 10 + rng.Intn(40), 64 + rng.Intn(1000)} {
+				add(r, c15Damage{Kind: "append", Pos: k, Val: 0}, base+"|zeros")
+				add(r, c15Damage{Kind: "append", Pos: k, Val: uint8(1 + rng.Intn(255))}, base+"|seeded")
+			}
 		}
 	}
 	res := call(dms, L <= 160)
@@ -309,7 +354,7 @@ func c15RunTask(c *Ctx, run *ev.Run, n *node.Node, rng *rand.Rand, g *c15Group, 
 	}
 	for i, o := range res.Obs {
 		run.Eval(keys[i])
-		if !c15Conforms(rowOf[i].Expect, o, compCode) {
+		if !c15Conforms(rowOf[i].Expect, o, compCode, pl.Len) {
 			d := dms[i]
 			c15Report(run, c15Divergence{Kind: "outcome", Row: rowOf[i], Payload: &pl, Envelope: res.Env, Damage: &d,
 				Expected: rowOf[i].Expect, Observed: o})
@@ -416,7 +461,7 @@ func checkC15(c *Ctx) int {
 			arbs = append(arbs, &row)
 		}
 	})
-	if len(rows) < 500 || len(arbs) < 100 {
+	if len(rows) < 1500 || len(arbs) < 100 {
 		infra("Envelope printed %d rows and %d arbitrary-string classes: %s", len(rows), len(arbs), r.Tail(1500))
 	}
 	// group the rows by what is serialized
@@ -426,10 +471,10 @@ func checkC15(c *Ctx) int {
 		if _, ok := c15Comp[row.Comp]; !ok {
 			infra("unknown compression %q in table", row.Comp)
 		}
-		k := fmt.Sprintf("%s|%s|%d|%s", row.PC, row.Comp, row.Lvl, row.Cks)
+		k := fmt.Sprintf("%s|%s|%s|%d|%s", row.Api, row.PC, row.Comp, row.Lvl, row.Cks)
 		g := groups[k]
 		if g == nil {
-			g = &c15Group{pc: row.PC, comp: row.Comp, cks: row.Cks, lvl: row.Lvl}
+			g = &c15Group{api: row.Api, pc: row.PC, comp: row.Comp, cks: row.Cks, lvl: row.Lvl}
 			groups[k] = g
 			gkeys = append(gkeys, k)
 		}
@@ -526,7 +571,7 @@ func checkC15(c *Ctx) int {
 		}
 		for k, o := range obs {
 			run.Eval(fmt.Sprintf("arb|%d|%d|%s|%v|%d", row.CompBits, row.CksBits, row.Tail, row.Unc, k))
-			if !c15Conforms(row.Expect, o, 0) {
+			if !c15Conforms(row.Expect, o, 0, 0) {
 				c15Report(run, c15Divergence{Kind: "arbitrary-bytes", Row: row, Input: inputs[k], Expected: row.Expect, Observed: o})
 			}
 		}
@@ -545,14 +590,20 @@ func checkC15(c *Ctx) int {
 	run.Set("arbitrary_string_classes", len(arbs))
 	run.Set("format_payload_combinations", len(tasks))
 	c15History(c, run, nodes[0])
-	run.Set("rule", "TLC model-checks specs/Envelope.tla (behaviours Serialize -> at most one Damage -> Deserialize over payload class x {none,snappy,lz4,gzip:-1/1/6/9} x {none,crc32} x uncompress?, and arbitrary strings over compression bits x checksum bits x tail class), checks the C15 claims on the intended decoder and prints one table row (region layout, damaged region, outcome class) per behaviour; the byte-level for-all is beyond TLC, so the harness expands each row into seeded concrete payloads and into EVERY byte position of the damaged region (all 8 bit flips, two substitutions, every truncation length) when the serialized value has <= "+fmt.Sprint(allLimit)+" bytes, region edges + seeded positions otherwise, and requires the outcome of the real dvid.SerializeData / SerializePrecompressedData / DeserializeData to lie in the row's class. evaluations = concrete DeserializeData calls; In addition every call sequence of specs/EnvelopeHistory.tla (all sequences of 3 (thorough 4) calls over {serialize, deserialize, deserialize raw} x 4 compressions) is executed holding the returned slices themselves, and after every call each held result must still equal what was returned. distinct_nontrivial = distinct (table row, payload variant, position class first/inner/last of the region) resp. (arbitrary class, sample)")
+	c15Stored(c, run, rows)
+	run.Set("rule", "TLC model-checks specs/Envelope.tla (behaviours Serialize -> at most one Damage (bit flip, byte substitution, cut inside / before a region, trailing extra bytes) -> Deserialize over api {data: SerializeData/DeserializeData, obj: the gob object pair Serialize/Deserialize} x payload class (obj: flat / nested / bytes objects) x {none,snappy,lz4,gzip:-1/1/6/9,jpeg (lossy: same size only)} x {none,crc32} x uncompress?, and arbitrary strings over compression bits x checksum bits x tail class), checks the C15 claims on the intended decoder and prints one table row (region layout, damaged region, outcome class) per behaviour; the byte-level for-all is beyond TLC, so the harness expands each row into seeded concrete payloads and into EVERY byte position of the damaged region (all 8 bit flips, two substitutions, every truncation length) when the serialized value has <= "+fmt.Sprint(allLimit)+" bytes, region edges + seeded positions otherwise, and requires the outcome of the real dvid.SerializeData / SerializePrecompressedData / DeserializeData to lie in the row's class. evaluations = concrete DeserializeData calls; In addition every call sequence of specs/EnvelopeHistory.tla (all sequences of 3 (thorough 4) calls over {serialize, deserialize, deserialize raw} x 4 compressions) is executed holding the returned slices themselves, and after every call each held result must still equal what was returned. STORED VALUES: every row read with decompression names the users of the envelope whose stored values it is the oracle for (UserFormats: repo metadata = obj/lz4/crc32, keyvalue / imageblk / labelmap blocks = the instance's Compression x Checksum settings, labelmap label index = lz4 without checksum, where the spec records that detection cannot be claimed); for each user and format an instance is created with these settings, a value is written and read back through HTTP, the stored bytes are fetched from the store and their format byte and region layout compared with the row, then damaged as the row says at the region edges + seeded positions, written back under the same key and read through the user's GET requests (repo metadata: the server is restarted on the damaged blob; outcome = start-up error / original metadata / other metadata / crash). distinct_nontrivial = distinct (table row, payload variant, position class first/inner/last of the region) resp. (arbitrary class, sample)")
 	run.Assume = []string{
 		"checksum modelled as ideal (matches iff stored field and covered bytes intact); for CRC-32 this is exact for single-bit and single-byte changes and fails with probability 2^-32 for truncations",
 		"gzip values read without decompression are outside the corruption claim (the envelope checksum is dropped by design and gzip's own CRC is only verified on decompression)",
 		"changes of the format byte or of the stored checksum field leave the payload bytes intact: only crash-freedom is required there",
 		"truncation to zero bytes yields the legitimate serialization of the empty payload",
 		"random tails offered to the lz4 / snappy decoders keep the embedded decoded size below 16 MB except in class hugesize (2 strings per class); memory exhaustion is not counted as a crash",
-		"JPEG is lossy and only takes part in the arbitrary-string (crash-freedom) rows",
+		"dvid.Deserialize = the envelope followed by encoding/gob, which is documented as not hardened against adversarial input: an altered element count makes it allocate without bound (observed: reflect.MakeMapWithSize -> 'fatal error: runtime: out of memory', which kills the process). Where the envelope returns bytes other than the original gob bytes without an error (only possible in rows without a checksum in force, whose class is 'nocrash') the bytes are not offered to gob; the only user, the repo metadata, writes with CRC32",
+		"JPEG is lossy: undamaged values must come back with the same number of bytes, nothing is claimed about their content; the JPEG level is the row width, chosen by the harness as the largest divisor <= 127 of the payload length",
+		"trailing extra bytes behind a checksummed value are detected with the probability of a CRC-32 mismatch (ideal checksum in the model)",
+		"stored values: HTTP status >= 400 counts as the error report; for answers that are streamed as JSON the status line precedes the read, so an answer that is not well-formed JSON (error text appended) also counts; requests that hand the stored compressed bytes on unread (labelmap specificblocks) are only required not to take the server down",
+		"stored values: an answer with a recovered panic (5xx) is accepted as an error; only the death of the server process or different data under a checksum is a violation",
+		"labelmap instances with Compression=snappy are not read through GET blocks / specificblocks (these requests refuse snappy-stored blocks by design)",
 	}
 	fmt.Printf("C15: %d table rows + %d arbitrary-string classes; %d format x payload combinations; violations: %d damage/round-trip, %d total; %.1fs\n",
 		len(rows), len(arbs), len(tasks), nDamage, run.Violations(), since(t0))
